@@ -238,11 +238,13 @@ theorem scan_inv (qid : Nat) (rank : Nat → Nat) : ∀ (S R : List Nat) (st : S
           · left; exact hb
         · right; simp [hb]
 
-/-- the result of the scan of a list sorted by an injective rank, when the query sequence is not in it: every
-sequence met is reported with its number of occurrences **plus one** -/
-theorem scan_fresh (qid : Nat) (rank : Nat → Nat) (L : List Nat) (hs : L.Pairwise (fun a b => rank a ≤ rank b))
-    (hinj : ∀ a b, a ∈ L → b ∈ L → rank a = rank b → a = b) (hq : qid ∉ L) (j : Nat) :
-    (scanResult (L.foldl (scanStep qid) ⟨none, 0, []⟩)).lookup j = if j ∈ L then some (L.count j + 1) else none := by
+/-- **the result of the scan** of a list sorted by an injective rank: every sequence met other than the query
+sequence is reported with its number of occurrences **plus one**; the query sequence never is (patch
+`C19-query-self-last`) -/
+theorem scan_general (qid : Nat) (rank : Nat → Nat) (L : List Nat) (hs : L.Pairwise (fun a b => rank a ≤ rank b))
+    (hinj : ∀ a b, a ∈ L → b ∈ L → rank a = rank b → a = b) (j : Nat) :
+    (scanResult qid (L.foldl (scanStep qid) ⟨none, 0, []⟩)).lookup j =
+      if j ∈ L ∧ j ≠ qid then some (L.count j + 1) else none := by
   unfold scanResult
   have h := scan_inv qid rank L [] ⟨none, 0, []⟩ ⟨rfl, rfl⟩ (by simp) hs (by simp)
     (by intro a b ha hb; simp at ha hb; exact hinj a b ha hb)
@@ -261,23 +263,54 @@ theorem scan_fresh (qid : Nat) (rank : Nat → Nat) (L : List Nat) (hs : L.Pairw
     have hmem : ∀ x, x ∈ L ↔ x ∈ p :: R0 := by intro x; rw [← hR]; simp
     have hcnt : ∀ x, L.count x = (p :: R0).count x := by
       intro x; rw [← hR]; exact (List.reverse_perm L).count_eq x |>.symm
-    simp only [h1, lookup_matchSet]
-    by_cases hj : j = p
-    · subst hj
-      have : j ∈ L := (hmem j).2 (by simp)
-      simp [this, h2, hcnt]
-    · simp only [hj, if_false]
-      rw [h3 j, hcnt j]
-      have hjq : j ∈ R0 → j ≠ qid := by
-        intro hm e; subst e; exact hq ((hmem j).2 (by simp [hm]))
+    simp only [h1]
+    by_cases hpq : p = qid
+    · -- the last run is the query sequence: nothing is recorded for it
+      have : ¬ (p ≠ qid) := fun hh => hh hpq
+      rw [if_neg this, h3 j, hcnt j]
       by_cases hm : j ∈ R0
-      · have : j ∈ L := (hmem j).2 (by simp [hm])
-        simp [hm, hj, hjq hm, this]
-      · have : j ∉ L := by
-          intro h; rcases List.mem_cons.mp ((hmem j).1 h) with h | h
-          · exact hj h
-          · exact hm h
-        simp [hm, this]
+      · have hL : j ∈ L := (hmem j).2 (by simp [hm])
+        by_cases hj : j = p
+        · have : ¬ (j ≠ qid) := by rw [hj, hpq]; simp
+          simp [hj, hpq]
+        · have hjq : j ≠ qid := by rw [← hpq]; exact hj
+          simp [hm, hj, hjq, hL]
+      · by_cases hj : j = p
+        · have : ¬ (j ≠ qid) := by rw [hj, hpq]; simp
+          simp [hm, this]
+        · have : j ∉ L := by
+            intro h; rcases List.mem_cons.mp ((hmem j).1 h) with h | h
+            · exact hj h
+            · exact hm h
+          simp [hm, this]
+    · have hpq' : p ≠ qid := hpq
+      rw [if_pos hpq', lookup_matchSet]
+      by_cases hj : j = p
+      · subst hj
+        have : j ∈ L := (hmem j).2 (by simp)
+        simp [this, h2, hcnt, hpq]
+      · simp only [hj, if_false]
+        rw [h3 j, hcnt j]
+        by_cases hm : j ∈ R0
+        · have hL : j ∈ L := (hmem j).2 (by simp [hm])
+          by_cases hjq : j = qid
+          · simp [hjq]
+          · simp [hm, hj, hjq, hL]
+        · have : j ∉ L := by
+            intro h; rcases List.mem_cons.mp ((hmem j).1 h) with h | h
+            · exact hj h
+            · exact hm h
+          simp [hm, this]
+
+/-- the query sequence is not in the list: every sequence met is reported -/
+theorem scan_fresh (qid : Nat) (rank : Nat → Nat) (L : List Nat) (hs : L.Pairwise (fun a b => rank a ≤ rank b))
+    (hinj : ∀ a b, a ∈ L → b ∈ L → rank a = rank b → a = b) (hq : qid ∉ L) (j : Nat) :
+    (scanResult qid (L.foldl (scanStep qid) ⟨none, 0, []⟩)).lookup j = if j ∈ L then some (L.count j + 1) else none := by
+  rw [scan_general qid rank L hs hinj j]
+  by_cases hj : j ∈ L
+  · have : j ≠ qid := fun e => hq (e ▸ hj)
+    simp [hj, this]
+  · simp [hj]
 
 /-! ## `Query` of a sequence that is not in the index, no occurrence limit -/
 
